@@ -172,6 +172,7 @@ START_NODE_IPS = {"ST_PROJ-A-PRV-PC-1": "192.168.230.2", "ST_PROJ-B-PRV-PC-2": "
 # subnets the propagate stage may be told to scan; index 3 is the /26 whose ping scan costs seconds
 NETS = ["192.168.230.0/29", "192.168.20.0/30", "192.168.220.0/29", "192.168.10.0/26", "192.168.240.0/29"]
 ROUTERS_003 = ["ST_INTRA-PRV-RT-DR-1", "ST_INTRA-PRV-RT-CR", "REM-PUB-RT-DR"]
+C2_SERVER = "ISP-PUB-SRV-DNS"  # kill_chain.COMMAND_AND_CONTROL.c2_server_name in the shipped tap-001 settings (not mutated)
 
 TAP_EXTRA_BLUE: List[Dict] = []
 for _n in START_NODES:
@@ -437,8 +438,13 @@ def check_tap(res: CaseResult, case: Dict, hist: List, stages: List[int], ep: in
             continue
         node = par.get("node_name", par.get("source_node"))
         if act.startswith("c2-server-"):
-            if node != "ISP-PUB-SRV-DNS":
+            if node != C2_SERVER:
                 res.violate(f"c2-action-not-on-c2-server:{persona}", f"{where}: step {t} {act} on {node}")
+        elif node == C2_SERVER and C2_SERVER not in allowed_nodes:
+            # its own clause (structural key: the persona's C2 server host), so that the open finding about it cannot hide
+            # any other departure from the configured start nodes
+            res.violate(f"start-node-action-on-c2-server:{persona}",
+                        f"{where}: step {t} {act} {par} was aimed at the C2 server {C2_SERVER}, configured start nodes {allowed_nodes}")
         else:
             used.append(node)
             if node not in allowed_nodes:
